@@ -50,6 +50,8 @@ def box(name, N):
         return lows[:N], ups[:N]
     if name == "Z":       # integer-typed bounds with an odd sum: Python ints, as a user would write them
         return [0] * N, [3] * N
+    if name == "Zh":      # whole-number lower bounds typed as ints next to fractional upper bounds (mixed types)
+        return [0] * N, [0.5, 1.5, 2.5, 0.75, 1.25][:N]
     if name.startswith("I:"):   # "I:m" - the box whose 2^m cells per axis are centred at the integers 0..2^m-1
         mm = int(name[2:])
         return [-0.5] * N, [2.0 ** mm - 0.5] * N
